@@ -70,3 +70,19 @@ def div128(prefix, s, f, fa, fb, timeout=900):
                "quotient by 256-bit multiply-back" % (fa, fb),
                timeout=timeout, generic_extra=", %d, %d" % (fa, fb), suffix="_f%d%d" % (fa, fb),
                bounds="operand families of 2^16 values each (see hk/src/ar.rs fam128)")
+
+
+def div_pow2(prefix, s, w, f, k, neg, timeout=900):
+    return job(prefix, "div_pow2", s, w, f, "for EVERY dividend a of %%(t)s and the constant divisor %s2^%d ulp: all five division forms equal "
+               "trunc(a*2^f/b) (flag, value mod 2^W, None, saturation side)" % ("-" if neg else "+", k),
+               timeout=timeout, generic_extra=", %d, %s" % (k, "true" if neg else "false"), suffix="_%sp%d" % ("m" if neg else "", k),
+               bounds="all 2^%d dividends, divisor constant" % w)
+
+
+def div_const(prefix, s, w, f, d, neg, form, timeout=900):
+    dh, dl = d >> 64, d & ((1 << 64) - 1)
+    return job(prefix, "div_const", s, w, f, "for EVERY dividend a of %%(t)s and the constant divisor %s%#x ulp: the %s form of div: flag by "
+               "shift/compare, quotient by 256-bit multiply-back" % ("-" if neg else "+", d, FORMS[form]),
+               timeout=timeout, generic_extra=", %d, %d, %s, %d" % (dh, dl, "true" if neg else "false", form),
+               suffix="_%sd%x_%s" % ("m" if neg else "", d, FORMS[form][:3]),
+               bounds="all 2^%d dividends, divisor constant" % w)
